@@ -251,7 +251,11 @@ def historyCmd (calls : List Sexp) : Sexp :=
     | .list [.atom "call", _, .list [.atom "exec", store, entry, exts, esc, globals, vars, data, fuel]] =>
       execDispatch store entry exts esc globals vars data fuel
     | _ => .atom "bad-op"
-  .list (.atom "results" :: rs)
+  -- a call the model says diverges makes the whole history diverge (the implementation dies of a
+  -- stack overflow there); other unsupported calls are skipped individually by the harness
+  match rs.find? (fun x => match x with | .list [.atom "unsupported", .atom "fuel"] => true | _ => false) with
+  | some u => u
+  | none => .list (.atom "results" :: rs)
 
 def dispatch : Sexp → Sexp
   | .list (.atom "history" :: calls) => historyCmd calls
